@@ -12,9 +12,17 @@
     tally.  [c_h] is the claim hash as the implementation computed it (nothing is assumed about the
     hash: "identical claim" is "equal claim, or two different claims with one hash" — the hash is
     C11's subject).  The model reads 66, 100, GT, the de-duplication of Votes and the order of the
-    two cursor writes from the source (Gen.C02). *)
+    two cursor writes from the source (Gen.C02).
+
+    Second round.  Histories now also contain: validators entering / leaving the bonded set
+    ([SetBonded]; a vote needs a staking record in status Bonded, powers are whatever staking reports
+    at the tally, 0 without a record), the three claim types with their handlers ([c_kind] 0 deposit /
+    1 executed batch / 2 light-node sale; [MkBatch] / [DropBatch] create and cancel pending batches),
+    and a genesis export + import ([Regenesis]).  Several remote chains in one history are
+    [mrun cs l] (Skyway/OracleChains.v): one state per chain, operations addressed to a chain or
+    global.  [is_reset o]: Override, Activate, Regenesis. *)
 From Coq Require Import List ZArith Bool.
-From Paloma Require Import Base.Num Skyway.Oracle Skyway.OracleProofs.
+From Paloma Require Import Base.Num Skyway.Oracle Skyway.OracleProofs Skyway.OracleChains.
 From Paloma Require Gen.C02.
 Import ListNotations.
 Open Scope Z_scope.
@@ -122,3 +130,122 @@ Theorem vote_tally_model_is_translation_of_source :
   forall acc p : Z, GoSemFacts.fits256 (acc + p) -> GenFn.TryAttestation.tryAttestation_addVote acc p = GoSem.Val (acc + p)%Z.
 Proof. exact (conj Trans.C02Fn.tally_start_eq Trans.C02Fn.tally_step_eq). Qed.
 Print Assumptions vote_tally_model_is_translation_of_source.
+
+(** ---------------------------------------------------------------------------------------------
+    Second round (deepen): validator-set changes, the three claim types, stalls, several chains.
+    --------------------------------------------------------------------------------------------- *)
+
+(** A counted vote was cast by the operator of a validator that had a staking record in status
+    Bonded when the vote was accepted (left / jailed-out / removed validators cannot vote; what they
+    voted before keeps counting with the power staking reports at the tally — 0 once they left). *)
+Theorem voters_were_bonded : forall (ops : list op) (v : Z) (c : claim),
+  accepted_vote ops v c ->
+  exists o1 o2 known, ops = o1 ++ Vote v known c :: o2 /\ known = true /\ In v (bonded (run o1)).
+Proof. exact accepted_vote_was_bonded. Qed.
+Print Assumptions voters_were_bonded.
+
+(** Exactly once, executed-batch claims: no pending batch is executed twice, and a batch that was
+    executed is pending no more (batch nonces are never handed out again). *)
+Theorem batch_executed_exactly_once : forall ops : list op,
+  NoDup (map subject (filter (ok_kind 1) (applied (run ops)))) /\
+  forall e, In e (applied (run ops)) -> ok_kind 1 e = true ->
+    bget (batches (run ops)) (c_rcv (e_claim e)) (c_amt (e_claim e)) = None.
+Proof. exact batch_executed_once_run. Qed.
+Print Assumptions batch_executed_exactly_once.
+
+(** Exactly once, light-node sale claims: the licences are exactly the sale claims whose handler
+    ran, at most one per client; a sale claim that names the registered sale contract and took
+    effect leaves its client with a licence (its own, or the one the client already had). *)
+Theorem sale_licence_exactly_once : forall ops : list op,
+  NoDup (map rcv_of (filter (ok_kind 2) (applied (run ops)))) /\
+  (forall x a, zget (lic (run ops)) x = Some a <->
+      exists e, In e (applied (run ops)) /\ ok_kind 2 e = true /\ subject e = (x, a)) /\
+  (forall e, In e (applied (run ops)) -> c_kind (e_claim e) = 2 -> c_tok (e_claim e) = true ->
+      zget (lic (run ops)) (c_rcv (e_claim e)) <> None).
+Proof. exact sale_licences_run. Qed.
+Print Assumptions sale_licence_exactly_once.
+
+(** "Whenever it can be applied at all", deposits: the handler of a deposit that took effect ran
+    iff the token is a registered bridge token of the chain. *)
+Theorem deposit_applied_iff_registered : forall (ops : list op) (e : entry),
+  In e (applied (run ops)) -> c_kind (e_claim e) = 0 -> e_ok e = c_tok (e_claim e).
+Proof. exact deposit_applicable_run. Qed.
+Print Assumptions deposit_applied_iff_registered.
+
+(** Liveness note 1 as a theorem.  [stalled_observed s h]: the attestation (cursor+1, h) of the
+    current deployment is already observed (reachable only by a reset to a lower nonce).  From then
+    on, for EVERY continuation without a reset — any votes, tallies, power / validator-set changes —
+    the cursor, the last height, the effect log stay what they are and the state stays stalled,
+    unless a claim with a LOWER hash takes effect at that nonce.  Claims with the same or a higher
+    hash (the honest majority re-submitting the event) never do.  Not a safety violation: nothing
+    takes effect.  It lasts until governance resets the cursor again. *)
+Theorem stalls_until_override : forall (ops0 ops : list op) (h : Z),
+  stalled_observed (run ops0) h -> forallb (fun o => negb (is_reset o)) ops = true ->
+  (frozen (run ops0) (run (ops0 ++ ops)) /\ stalled_observed (run (ops0 ++ ops)) h) \/
+  escaped_lower (run ops0) (run (ops0 ++ ops)) h.
+Proof. exact stalls_until_override_run. Qed.
+Print Assumptions stalls_until_override.
+
+(** Liveness note 2.  [stalled_height s h]: the un-observed attestation (cursor+1, h) names a remote
+    height below the last observed one (since repair F2b a refused height writes nothing).  Without
+    a reset that claim never takes effect; the cursor moves only if ANOTHER claim takes effect at
+    that nonce. *)
+Theorem stalls_on_refused_height : forall (ops0 ops : list op) (h : Z),
+  stalled_height (run ops0) h -> forallb (fun o => negb (is_reset o)) ops = true ->
+  (frozen (run ops0) (run (ops0 ++ ops)) /\ stalled_height (run (ops0 ++ ops)) h) \/
+  escaped_other (run ops0) (run (ops0 ++ ops)) h.
+Proof. exact stalls_on_refused_height_run. Qed.
+Print Assumptions stalls_on_refused_height.
+
+(** What a stall looks like from outside: the tally returns an error and writes nothing (so the
+    attestations sorted after the blocking one — same nonce, higher hash — are not even tried),
+    unless a claim with a lower hash takes effect in that very tally.  Blocking = already observed,
+    or holding the votes with a refused height. *)
+Theorem tally_aborts_while_stalled : forall (ops : list op) (h : Z),
+  stalled_observed (run ops) h \/
+  (exists a, In (next_nonce (run ops), h, a) (atts (run ops)) /\
+     in_compass (run ops) (next_nonce (run ops), h, a) = true /\
+     a_obs a = false /\ c_height (a_claim a) < last_height (run ops) /\
+     fire_prefix (pw (run ops)) (required (run ops)) 0 (a_votes a) <> None) ->
+  tally (run ops) = (run ops, false) \/ escaped_lower (run ops) (fst (tally (run ops))) h.
+Proof. exact tally_aborts_while_stalled_run. Qed.
+Print Assumptions tally_aborts_while_stalled.
+
+(** Several chains: the state of chain [c] after a multi-chain history is the single-chain run of
+    the operations addressed to [c] (plus the global ones) — nothing done on another chain is an
+    input of it. *)
+Theorem chains_are_independent : forall (cs : list Z) (l : list mop),
+  mrun cs l = map (fun c => (c, run (project c l))) cs.
+Proof. exact mrun_project. Qed.
+Print Assumptions chains_are_independent.
+
+(** Hence every theorem above holds for every chain of every multi-chain history. *)
+Theorem every_chain_satisfies : forall P : state -> Prop,
+  (forall ops, P (run ops)) -> forall cs l c s, In (c, s) (mrun cs l) -> P s.
+Proof. exact every_chain_is_a_run. Qed.
+Print Assumptions every_chain_satisfies.
+
+(** The headline clause per chain: the > 66 % are DISTINCT validators whose votes were accepted by
+    the oracle of THAT chain (messages addressed to it), under the powers of the moment of that
+    chain's tally.  Votes for chain A never count for chain B. *)
+Theorem votes_count_only_on_their_chain : forall (cs : list Z) (l : list mop) (c : Z) (s : state) (e : entry),
+  In (c, s) (mrun cs l) -> In e (applied s) ->
+  exists l1 y l2 vs,
+    l = l1 ++ y :: l2 /\ addressed c y = true /\ snd y = Tally /\
+    NoDup vs /\
+    (forall v, In v vs -> exists cl, accepted_vote_on c l1 v cl /\
+        c_nonce cl = c_nonce (e_claim e) /\ c_height cl = c_height (e_claim e) /\
+        (cl = e_claim e \/ (cl <> e_claim e /\ c_h cl = c_h (e_claim e)))) /\
+    100 * power (pw (run (project c l1))) vs > 66 * total (run (project c l1)).
+Proof. exact votes_count_only_on_their_chain_run. Qed.
+Print Assumptions votes_count_only_on_their_chain.
+
+(** Genesis export + import is an operation of the histories above.  What it keeps: cursor, effect
+    log, the attestations of the latest deployment.  What it drops: the compass id, the last remote
+    height, attestations of other deployments (validator records are rebuilt from the vote lists). *)
+Theorem genesis_round_trip_keeps : forall s : state,
+  last_obs (regenesis s) = last_obs s /\ applied (regenesis s) = applied s /\ epoch (regenesis s) = epoch s /\
+  compass (regenesis s) = 0 /\ last_height (regenesis s) = 0 /\
+  (forall x, In x (atts (regenesis s)) <-> In x (atts s) /\ in_compass s x = true).
+Proof. exact regenesis_facts. Qed.
+Print Assumptions genesis_round_trip_keeps.
